@@ -687,7 +687,6 @@ func (ww *WW) EmitInit() {
 	ww.emit("init", map[string]any{"mints": mints, "wallets": wallets}, map[string]any{"ok": true, "panic": false, "detail": ""})
 }
 
-
 // Retire removes a wallet from the world; the live value it still holds stays accounted for.
 func (ww *WW) Retire(name string) {
 	ws := ww.Wallets[name]
